@@ -36,6 +36,16 @@ def run(chk, tier, seed):
             for kind, w in r['bad']:
                 chk.violation(dict(obligation='C12.bounded.' + kind, tree=r['tree'], pattern=r['pattern'], fl=r['fl'], witness=w),
                               f'glob({r["pattern"]!r}, flags={r["fl"]}) on tree {r["tree"]}: {kind}: {w}', replay(r, specs))
+    # a root (or a literal prefix) that does not exist has no entries at all - not even the fake `.` and `..`
+    for p, fl in (('./.', G.G), ('.*', G.G | G.SD), ('.', G.G), ('*', G.G), ('**', G.G | G.D), ('*/.', G.G), ('..', G.G), ('.*/', G.SD)):
+        for kw, where in ((dict(root_dir='/nonexistent-root-for-c12'), 'a root_dir that does not exist'), (dict(root_dir=b'/nonexistent-root-for-c12'), 'a bytes root_dir that does not exist')):
+            pt = p.encode() if isinstance(kw['root_dir'], bytes) else p
+            got = G.glob(pt, flags=fl | G.U, **kw)
+            chk.case(key=('nonexistent-root', p, fl, where))
+            if got:
+                chk.violation(dict(obligation='C12.bounded.does-not-exist', tree='(none)', pattern=p, fl=globrun.LC.flagnames(fl), witness=str(got[0])),
+                              f'glob({pt!r}, {globrun.LC.flagnames(fl)}) with {where} returns {got}',
+                              f"import sys; sys.path.insert(0, {REPO!r})\nfrom wcmatch import glob\ngot = glob.glob({pt!r}, flags={fl | G.U}, root_dir={kw['root_dir']!r})\nprint(got)\nsys.exit(1 if got else 0)\n")
     chk.rule = ('bounded stand-in: for each (tree, pattern, flags) every element of glob() is checked for lexists relative to the root, relative/absolute spelling, trailing '
                 'separator <=> directory and (pattern ended with separator or MARK), never a directory under NODIR; iglob() == glob() as lists; equal result LISTS for '
                 'root_dir as str / bytes / PathLike, dir_fd and chdir; non-trivial = non-empty result')
